@@ -174,6 +174,21 @@ def run(ctx: Context, rep) -> None:
                where=we.qualname, construct=short(tgt),
                message=f"attach target shard `{dotted(base)}` is the shard "
                f"written to ({recv})")
+    from sa.rules import shared
+    shared.check_no_memo(ctx, rep, "C11.memo")
+    # "selecting shards by metadata returns all and only the examples
+    # written under that metadata": the predicate / per-metadata limit must
+    # reach the selection routine on every interface (same rule as C12.forward)
+    from sa.rules import common as C_
+    from sa.rules.c12 import selection_functions
+    rep.rule(
+        "C11.select",
+        "every call edge among the functions that reach the shard selection "
+        "routine forwards shard_filter and custom_metadata_type_limit")
+    C_.check_forwarding(ctx, rep, "C11.select", selection_functions(ctx),
+                        ["shard_filter", "custom_metadata_type_limit"], {})
+    rep.floor("C11.select", rep.count("C11.select"), 10, "instances")
+
 
 
 _P = "src/sedpack/io/dataset_filler.py"
